@@ -1,5 +1,6 @@
 import Xo.LayR
 import Xo.Model.Layout
+import Xo.Model.Path
 /-! glue between the protocol's types/values (names, index order, input forms) and the proof model `Lay`
 (positional fields, memory order, canonical values); used by the `lay` driver so that the proof model's own
 definitions are executed against the implementation on every reference-free case -/
@@ -40,6 +41,24 @@ partial def showP (t : CGen.Ty) (v : Lay.Val) : String :=
     let strs := idxs.map fun idx => showP it (items.getD (LayM.mpos shape ord idx) default)
     "[" ++ " ".intercalate (shape.map toString) ++ "|" ++ ",".intercalate strs ++ "]"
   | _, _ => "?"
+
+/-- a protocol path (field names, item indices in index order) as part indices of the proof model (field position, memory position) -/
+partial def pathP (t : CGen.Ty) (v : Lay.Val) : List LayM.Step → Option (List Nat)
+ | [] => some []
+ | .field n :: r =>
+    match t, v with
+    | .struct _ fs, .struct vs =>
+      let k := fs.findIdx (·.1 == n)
+      match fs[k]? with
+      | some (_, ft) => (pathP ft (vs.getD k default) r).map (k :: ·)
+      | none => none
+    | _, _ => none
+ | .item idx :: r =>
+    match t, v with
+    | .array it _ ord, .arr shape items =>
+      let k := LayM.mpos shape ord (idx.map Int.toNat)
+      (pathP it (items.getD k default) r).map (k :: ·)
+    | _, _ => none
 
 /-- run the proof model's writer: the buffer image after `apply (shift off (patchesD t v))` -/
 def writeP (t : Lay.Ty) (v : Lay.Val) (off : Nat) (mem : LayM.Mem) : List UInt8 :=
